@@ -3,9 +3,12 @@ module verifh
 go 1.14
 
 require (
+	github.com/ethereum/go-ethereum v1.9.25
+	github.com/ontio/ontology v1.11.1-0.20200812075204-26cf1fa5dd47
 	github.com/ontio/ontology-crypto v1.0.9
 	github.com/polynetwork/poly v0.0.0
 	github.com/syndtr/goleveldb v1.0.1-0.20200815110645-5c35d600f0ca
+	golang.org/x/crypto v0.0.0-20220214200702-86341886e292
 )
 
 replace github.com/polynetwork/poly => /repo
